@@ -44,6 +44,8 @@ def main():
         print(f"   discharge {time.time()-t1:.1f}s")
         for name, e in by.items():
             if e["unsat"] == e["n"]:
+                if os.environ.get("LIST") and os.environ["LIST"] in name:
+                    print(f"   {name}: {e['n']} ok")
                 continue
             print(f"   {name}: {e['unsat']}/{e['n']} ok, {len(e['sat'])} sat, {len(e['unknown'])} unknown")
             for ob, d in (e["sat"][:int(os.environ.get('SHOW', '2'))] + e["unknown"][:1]):
